@@ -155,6 +155,16 @@ func judgeC11(v *spec.View, in, out obs.Tok) (sig, what string, applied bool) {
 			return "missing|noopener", fmt.Sprintf("<a href=%s target=\"_blank\"> lacks the rel token noopener (first rel=%s)", run.Q(href), run.Q(rel)), true
 		}
 	}
+	// a token no option asks for on this link is not added (the first input rel that survives is the baseline)
+	if hasRel && len(attrsNamed(out.Attr, "href")) == 1 && len(attrsNamed(out.Attr, "target")) <= 1 {
+		base := strings.Join(attrsNamed(in.Attr, "rel"), " ") // every token the input carried in any rel attribute
+		for tk, need := range map[string]bool{"nofollow": needNF, "noreferrer": needNR,
+			"noopener": el == "a" && v.LinkOptionOn() && hasT && tgt == "_blank"} {
+			if !need && obs.HasToken(rel, tk) && !obs.HasToken(base, tk) {
+				return "added-unrequired|" + tk, fmt.Sprintf("<%s href=%s>: rel token %s was added although no option requires it on this link (rel=%s)", el, run.Q(href), tk, run.Q(rel)), true
+			}
+		}
+	}
 	if !v.LinkOptionOn() {
 		return
 	}
